@@ -168,7 +168,40 @@ def ground_truth(chk, prog):
                     st["s:" + root.attr] = self2.fresh("inplace", stmt)
                     return
             super().bind(t, value_node, val, st, stmt)
-    fa = G(f, prog).analyse()
+    writes = {"quaternions": [], "ang_vel": []}
+
+    def self_write(fa_, attr, stmt, st):
+        if attr in writes:
+            writes[attr].append((st.get("s:" + attr), stmt))
+    fa = G(f, prog, callbacks={"self_write": self_write}).analyse()
+
+    def first_arg(vn, head):
+        i = vn.find(head)
+        if i < 0:
+            return None
+        depth, out = 0, ""
+        for ch in vn[i + len(head):]:
+            if ch in "([":
+                depth += 1
+            elif ch in ")]":
+                if depth == 0:
+                    break
+                depth -= 1
+            elif ch == "," and depth == 0:
+                break
+            out += ch
+        return out
+    src_q = {first_arg(v, "QuaternionArray(rpy=") for v, _ in writes["quaternions"] if v and "QuaternionArray(rpy=" in v}
+    src_w = {first_arg(v, "self.angular_velocities(") for v, _ in writes["ang_vel"] if v and "self.angular_velocities(" in v}
+    site = f.ref + "::random trajectory"
+    if not src_q or not src_w:
+        chk.error("GROUND-TRUTH: random-trajectory arm of Sensors.__init__ not recognised (quaternions from rpy=%s, ang_vel from %s)" % (sorted(src_q), sorted(src_w)))
+    elif src_q == src_w:
+        chk.record("GROUND-TRUTH", site, "quaternions and angular velocities are computed from the same angular positions (same value number, after every override)")
+    else:
+        why = "the quaternions are built from the angular positions %s but the angular velocities from %s: an override applied in between (e.g. the fixed yaw) reaches only one of them" % (sorted(src_q), sorted(src_w))
+        chk.record("GROUND-TRUTH", site, "quaternions and ang_vel derive from the same angular positions", verdict="VIOLATION", detail=why)
+        chk.finding("GROUND-TRUTH", SENS, "Sensors.__init__", "ang_vel and quaternions computed from different states of ang_pos", why, line=writes["ang_vel"][0][1].lineno)
     exits = [st for _, st in fa.returns if st is not None]
     if not exits:
         chk.error("GROUND-TRUTH: Sensors.__init__ has no normal exit")
@@ -259,6 +292,10 @@ def canaries(chk, prog):
 
 
 def run(chk, prog, tier):
+    # the random-trajectory arm reports ang_pos next to QuaternionArray(rpy=ang_pos): they describe the same attitudes iff the
+    # array constructor and to_angles are mutually inverse (same obligation as C10's RPY, array route)
+    from props.c10 import rpy as _rpy
+    _rpy(chk, prog, only={"QuaternionArray"})
     generate_avn(chk, prog)
     config_frozen(chk, prog)
     ground_truth(chk, prog)
